@@ -7512,6 +7512,14 @@ class SSHServerConnection(SSHConnection):
             cast(SSHTCPSessionFactory[bytes], SSHForwarder),
             dest_host, dest_port)
 
+        if not self._transport:
+            # This connection was closed while the tunneled connection was
+            # being opened, so there's no channel left to tie it to
+            cast(SSHForwarder, peer).close()
+
+            raise ChannelOpenError(OPEN_CONNECT_FAILED,
+                                   'SSH connection closed')
+
         self.logger.info('  Forwarding TCP connection to %s via SSH tunnel',
                          (dest_host, dest_port))
 
@@ -7524,6 +7532,12 @@ class SSHServerConnection(SSHConnection):
 
         _, peer = await conn.create_unix_connection(
             cast(SSHUNIXSessionFactory[bytes], SSHForwarder), dest_path)
+
+        if not self._transport:
+            cast(SSHForwarder, peer).close()
+
+            raise ChannelOpenError(OPEN_CONNECT_FAILED,
+                                   'SSH connection closed')
 
         self.logger.info('  Forwarding UNIX connection to %s via SSH tunnel',
                          dest_path)
